@@ -41,6 +41,14 @@ Theorem C20_kibble_massless_particles : forall s1 s2 s3 m0 m1 m2 m3 o,
     kallenR (kallenR s2 0 (m0^2)) (kallenR s3 0 (m0^2)) (kallenR 0 (m1^2) (m0^2)).
 Proof. exact kibble_massless. Qed.
 
+(* Kallen / Kibble constructed through keywords in shuffled order denote the same functions (bound by name) *)
+Theorem C20_keyword_construction : forall s1 s2 s3 m0 m1 m2 m3 o x y z,
+  denR (envK x y z) gen_kallen_kw = kallenR x y z /\
+  denR (envM s1 s2 s3 m0 m1 m2 m3 o) gen_kibble_kw_masses_first = denR (envM s1 s2 s3 m0 m1 m2 m3 o) gen_kibble /\
+  denR (envM s1 s2 s3 m0 m1 m2 m3 o) gen_kibble_kw_mixed = denR (envM s1 s2 s3 m0 m1 m2 m3 o) gen_kibble /\
+  denR (envM s1 s2 s3 m0 m1 m2 m3 o) gen_kibble_kw_reversed = denR (envM s1 s2 s3 m0 m1 m2 m3 o) gen_kibble.
+Proof. exact keyword_construction. Qed.
+
 Theorem C20_third_mandelstam_event :
   forall E1 x1 y1 z1 E2 x2 y2 z2 E3 x3 y3 z3 m0 m1 m2 m3 s3 o,
   m1^2 = mink E1 x1 y1 z1 -> m2^2 = mink E2 x2 y2 z2 -> m3^2 = mink E3 x3 y3 z3 ->
@@ -85,6 +93,7 @@ Theorem C20_indicator_iff_dalitz_limits : forall s1 s2 s3 m0 m1 m2 m3 o,
      denR (envM s1 s2 s3 m0 m1 m2 m3 o) gen_within = o).
 Proof. exact within_iff_dalitz_limits. Qed.
 
+Print Assumptions C20_keyword_construction.
 Print Assumptions C20_kallen_vanishing_arguments.
 Print Assumptions C20_kibble_massless_particles.
 Print Assumptions C20_kallen_defined.
